@@ -125,6 +125,26 @@ class Run:
     pass
 
 
+def global_grid(config, a, b):
+    """global (dimension-wise) grid family selected by config['grid'] (default: trapezoidal)"""
+    from sparseSpACE import Grid as G
+    name = config.get("grid", "trapezoidal")
+    bnd, mod = config.get("boundary", True), config.get("modified_basis", False)
+    if name == "trapezoidal":
+        return G.GlobalTrapezoidalGrid(a, b, boundary=bnd, modified_basis=mod)
+    if name.startswith("highorder"):           # highorder<p>[s]  (s = split_up)
+        return G.GlobalHighOrderGrid(a, b, boundary=bnd, modified_basis=mod, max_degree=int(name[9]), split_up=name.endswith("s"))
+    if name.startswith("lagrange"):
+        return G.GlobalLagrangeGrid(a, b, boundary=bnd, modified_basis=mod, p=int(name[8:]))
+    if name.startswith("bspline"):
+        return G.GlobalBSplineGrid(a, b, boundary=bnd, modified_basis=mod, p=int(name[7:]))
+    if name == "romberg":
+        from sparseSpACE.Extrapolation import SliceGrouping, SliceVersion, SliceContainerVersion
+        return G.GlobalRombergGrid(a, b, boundary=bnd, modified_basis=mod, slice_grouping=SliceGrouping.UNIT,
+                                   slice_version=SliceVersion.ROMBERG_DEFAULT, container_version=SliceContainerVersion.ROMBERG_DEFAULT)
+    raise ValueError(name)
+
+
 def build(config, history, comps, out_len, estimator=None, grid=None, operation=None, tol=0.5, perform=True,
           vectorized=None, perform_kwargs=None, sa_kwargs=None, observer=None, resume=None):
     """Construct fresh real objects for `config`, run the real adaptive loop along `history`.
@@ -135,8 +155,7 @@ def build(config, history, comps, out_len, estimator=None, grid=None, operation=
     a = np.array(config.get("a", [0.0] * d), dtype=float)
     b = np.array(config.get("b", [1.0] * d), dtype=float)
     if grid is None:
-        grid = GlobalTrapezoidalGrid(a, b, boundary=config.get("boundary", True),
-                                     modified_basis=config.get("modified_basis", False))
+        grid = global_grid(config, a, b)
     if operation is None:
         f = CustomFunction(comps, output_length=out_len)
         op = Integration(f, grid=grid, dim=d, reference_solution=None)
